@@ -15,14 +15,14 @@ PROP = "C12"
 COQ_TARGETS = ["Props/C12.vo", "Extract/ExtractC12.vo"]
 DRIVERS = ["c12"]
 
-# Mirror of Model/Issues.v [code_is_fixed].  False = the code as it is (the location suffix is appended on
-# every decoration: finding C12-F1).  After applying the fix (guard "if 'char_index' in error_object: return"
-# at the top of ErrorHandler._update_error_with_char_pos) set both to True.
-FIXED = True   # fix: commit 5312cdc is in /repo
-# False = the code as it is: the early return of SidecarValidator.validate (structure / reference error) hands the
-# issues back unsorted (finding C12-F2).  After "return sort_issues(issues)" there, set to True (the model's
-# sidecar_validate takes the flag as its sort_early argument).
-SORT_EARLY = True   # fix: commit 8c0dae9 is in /repo
+# Mirrors of the Coq switches (cross-checked against the extracted model on every run).
+# FIXED = Model/Issues.v [code_is_fixed]: True = the code as it is in /repo since fix commit 5312cdc
+#   (ErrorHandler._update_error_with_char_pos returns early when 'char_index' is present; finding C12-F1 repaired).
+#   False reproduces the behaviour before that commit (only for re-establishing the record on a reverted copy).
+FIXED = True
+# SORT_EARLY = Model/IssuePaths.v [code_sorts_early]: True = the code as it is in /repo since fix commit 8c0dae9
+#   (SidecarValidator.validate sorts also on its early return; finding C12-F2 repaired).
+SORT_EARLY = True
 
 TRUSTED = [
     "Model/Issues.v is a hand transcription of hed/errors/error_reporter.py (hed_error/hed_tag_error wrappers, "
@@ -45,8 +45,20 @@ TRUSTED = [
 ]
 ASSUMPTIONS = [
     "theorems are about the model; unbounded over all issue lists, handlers, contexts, strings and tags",
-    "C12_suffix_once_fixed holds for the guarded decoration (fixed=true); the code as it is is refuted "
-    "(C12_suffix_once_refuted, finding C12-F1) and characterised by C12_suffix_current_shape",
+    "the code as it is = /repo HEAD with fix commits 5312cdc (C12-F1), 8c0dae9 (C12-F2), 2e53521 (sort key): "
+    "C12_suffix_once_current / C12_sidecar_output_sorted_current are stated for the switches code_is_fixed / "
+    "code_sorts_early (both true, mirrored by FIXED / SORT_EARLY and cross-checked each run); "
+    "C12_suffix_once_refuted, C12_suffix_before_fix_shape and C12_sidecar_early_return_unsorted_refuted are records "
+    "of the behaviour BEFORE those commits (fixed=false / sort_early=false), re-established by reverting the "
+    "commits in a private copy; C12_table_errors_only_nonempty_gate_refuted and C12_combos_accum_refuted concern "
+    "hypothetical variants (seeded changes) that were never in /repo",
+    "clause 'has a message': the 'message' field is present by construction of _create_error_object (total field in "
+    "the model); non-emptiness is proved from the translated table of literal-text lengths of the message functions "
+    "(C12_message_nonempty, kernel evaluation); the rendered text is not modelled (oracle checks it is a non-empty "
+    "str on every issue)",
+    "C12_offsets_inside / C12_*_offsets_inside assume the span facts s<=e<=|text| and idx bounds of the tags named by "
+    "raw issues; for tags of a parsed string these are C02's theorems (linked by C12_parsed_tag_is_slice over C02's "
+    "spec_parse where proved), the tag-relative index bounds are C01's subject and re-checked by the oracle",
     "C12_validate_errors_only needs severities in {ERROR, WARNING} (guaranteed by the translated table; a "
     "caller-supplied override in between is refuted)",
     "sidecar / table entry points: Model/IssuePaths.v transcribes the decoration call paths (context stack, "
@@ -59,8 +71,12 @@ ASSUMPTIONS = [
     "C12_sidecar_errors_only needs the definition issues (appended without passing the handler's filter) to be errors; "
     "C12_table_errors_only_gen needs the row gate to give the same verdict on a list and its error subset "
     "(check_for_any_errors does; 'non-empty' does not: refuted)",
-    "C12_sidecar_output_sorted: the early return of SidecarValidator.validate is unsorted (finding C12-F2, refuted "
-    "witness); full statement proved for sort_early=true",
+    "C12_sidecar_output_sorted_current: sorted on every path for the code as it is (fix commit 8c0dae9); the "
+    "unsorted early return is kept as the record C12_sidecar_early_return_unsorted_refuted (sort_early=false)",
+    "sort key (fix commit 2e53521): int keys raw with default -1, other keys (0, text) / (1, number): the translator "
+    "compares the source of sort_issues._get_keys with the modelled shape (fail closed); numeric column labels are "
+    "covered by C12_sort_total_on_typed (non-int keys may hold text or numbers), C12_text_label_before_number, "
+    "C12_numeric_labels_sorted, synthetic sort lists with numeric ec_column values and headerless spreadsheets",
 ]
 
 SUFFIX_RE = re.compile(r"^(.*)  Problem spans string indexes: (-?\d+), (-?\d+)$", re.S)
@@ -372,7 +388,7 @@ def oracle_sorted(issues, entry, fails, fid=None):
     """A list returned by a file-level entry point is ordered by file, sidecar column, key, row."""
     ks = []
     for i in issues:
-        ks.append(tuple(i.get(k, -1 if k == "ec_row" else "") for k in DOC_SORT))
+        ks.append(tuple(i.get(k, -1) if k == "ec_row" else tagged(i.get(k, "")) for k in DOC_SORT))
     bad = None
     try:
         for j in range(len(ks) - 1):
@@ -546,10 +562,18 @@ def run_file_case(case):
     from harness import c12_paths as P
     try:
         for warn in (True, False):
-            sc = Sidecar(io.StringIO(json.dumps(case["sidecar"])), name="sc.json")
+            sc = Sidecar(io.StringIO(json.dumps(case["sidecar"])), name="sc.json") if case.get("sidecar") else None
             eh = ErrorHandler(check_for_warnings=warn)
             rec = P.Recorder(S["rows"])
-            if case["kind"] == "sidecar":
+            if case.get("headerless"):
+                # a file read without a header line: columns are labelled by number (ec_column is an int)
+                from hed.models.spreadsheet_input import SpreadsheetInput
+                txt = "".join("\t".join(r) + "\n" for r in case["rows"])
+                sp = SpreadsheetInput(io.StringIO(txt), file_type=".tsv", has_column_names=False,
+                                      tag_columns=list(range(len(case["rows"][0]))), name=case["name"])
+                with P.recording(rec):
+                    iss = sp.validate(sch, name=case["name"], error_handler=eh)
+            elif case["kind"] == "sidecar":
                 with P.recording(rec):
                     iss = sc.validate(sch, name=case["name"], error_handler=eh)
             else:
@@ -614,8 +638,13 @@ def run_file_case(case):
     return out
 
 
+def tagged(v):
+    """text labels before numeric ones (labels of a file without header are numbers)"""
+    return (0, v) if isinstance(v, str) else (1, v)
+
+
 def doc_key(d):
-    return tuple(d.get(k, -1 if k == "ec_row" else "") for k in DOC_SORT[1:])
+    return tuple(d.get(k, -1) if k == "ec_row" else tagged(d.get(k, "")) for k in DOC_SORT[1:])
 
 
 def check_sorted_stable(items, perm, rev, entry, fails):
@@ -864,9 +893,12 @@ def check_registry(res, table_sx):
     from hed.errors import error_reporter as ER
     from hed.errors.error_types import ErrorSeverity, ErrorContext
     bad = []
-    fixed_m, sev_e, sev_w = table_sx[1] == "1", int(table_sx[2]), int(table_sx[3])
+    fixed_m, early_m = table_sx[1][0] == "1", table_sx[1][1] == "1"
+    sev_e, sev_w = int(table_sx[2]), int(table_sx[3])
     if fixed_m != FIXED:
         bad.append(f"FIXED={FIXED} in harness/c12.py but code_is_fixed={fixed_m} in Model/Issues.v")
+    if early_m != SORT_EARLY:
+        bad.append(f"SORT_EARLY={SORT_EARLY} in harness/c12.py but code_sorts_early={early_m} in Model/IssuePaths.v")
     if (sev_e, sev_w) != (ErrorSeverity.ERROR, ErrorSeverity.WARNING):
         bad.append(f"severities {(sev_e, sev_w)} vs {(ErrorSeverity.ERROR, ErrorSeverity.WARNING)}")
     inv = {v: k for k, v in CKEYS.items()}
@@ -1108,6 +1140,20 @@ def gen_dataset_cases(rng, n):
     return out
 
 
+HEADERLESS_CELLS = ["red, Blue", "Green, Green", "Notatag", "Red", "n/a", "Blue", "Red-color/Myext", "gre$n",
+                    "(Onset, Red)", "Item/Object", "", "blue"]
+
+
+def gen_headerless_cases(rng, n):
+    out = []
+    for k in range(n):
+        ncol = rng.randint(1, 3)
+        rows = [[rng.choice(HEADERLESS_CELLS) for _ in range(ncol)] for _ in range(rng.randint(1, 4))]
+        out.append({"kind": "table", "headerless": True, "sidecar": None, "rows": rows, "columns": None,
+                    "name": rng.choice(["nohdr.tsv", "x/nohdr.tsv"]), "seed": rng.randrange(10 ** 6)})
+    return out
+
+
 def gen_file_cases(rng, n_sc, n_tab):
     out = []
     for k in range(n_sc):
@@ -1158,8 +1204,8 @@ def gen_sort_cases(rng, n):
                     d["ec_sidecarKeyName"] = rng.choice(["a", "b", "10", "9"])
             if rng.random() < 0.6:
                 d["ec_row"] = rng.choice([0, 1, 2, 10, 9, -1, -5, 100])
-            if rng.random() < 0.3:
-                d["ec_column"] = rng.choice(["HED", "cat"])
+            if rng.random() < 0.4:
+                d["ec_column"] = rng.choice(["HED", "cat", 0, 2, 10, 1])
             if rng.random() < 0.1:
                 d["ec_line"] = rng.choice(["l1", "l2"])
             items.append(d)
@@ -1170,7 +1216,9 @@ def gen_sort_cases(rng, n):
         if rng.random() < 0.5:
             a, b = b, a
         out.append({"kind": "sort", "items": [a, b], "typed": False})
-        out.append({"kind": "sort", "items": [{"ec_filename": 3}, {"ec_filename": "f"}], "typed": False})
+        # a number against text at a non-int key: comparable since fix commit 2e53521 (text first)
+        out.append({"kind": "sort", "items": [{"ec_filename": 3}, {"ec_filename": "f"}, {"ec_column": 2},
+                                              {"ec_column": "HED"}, {"ec_column": 10}, {}], "typed": True})
         out.append({"kind": "sort", "items": [{"ec_filename": "g", "ec_row": "x"}, {"ec_filename": "f", "ec_row": 1}],
                     "typed": False})
     return out
@@ -1207,7 +1255,8 @@ def gen_ctx_cases(rng, n):
 
 
 CORPUS = [
-    # finding C12-F1 witnesses (basic-phase warning, no basic-phase error, handler holds the string context)
+    # regression for the repaired finding C12-F1 (fix commit 5312cdc): basic-phase warning, no basic-phase error,
+    # handler holds the string context
     {"kind": "string", "text": "red", "ph": False, "ctx": [("hed", None)], "flavour": "corpus"},
     {"kind": "string", "text": "Red-color/Myext, Red, Red", "ph": False, "ctx": [("file", "f.tsv"), ("row", 3), ("hed", None)],
      "flavour": "corpus"},
@@ -1228,7 +1277,7 @@ CORPUS = [
     {"kind": "fmt", "kind_name": "HED_GROUP_EMPTY", "text": "Red-color/Myext, (Blue, Green), ()", "pick": 4, "idx": 0,
      "idx_end": None, "sev": None, "actual": None, "warn": True, "passes": 2},
     {"kind": "ctx", "ops": [["pop"]]},
-    # finding C12-F2 witness: early return of SidecarValidator.validate is unsorted
+    # regression for the repaired finding C12-F2 (fix commit 8c0dae9): early return of SidecarValidator.validate
     {"kind": "sidecar", "sidecar": {"b": {"HED": {"x": ""}}, "a": {"HED": {"k": "{zz}, Red", "j": "Blue"}}},
      "rows": None, "columns": None, "name": "sc.json", "seed": 1},
     # regression: one HED-string context per {column}-reference combination (annotations of different lengths,
@@ -1240,6 +1289,9 @@ CORPUS = [
     {"kind": "sidecar", "sidecar": {"bcol": {"HED": {"d": "(Definition/MixB, (Red))", "e": "Blue"}},
                                     "ccol": {"HED": {"k": "red", "l": "Green, Green"}}},
      "rows": None, "columns": None, "name": "sc.json", "seed": 8},
+    # regression (fix commit 2e53521): numeric column labels next to row-level issues without a label
+    {"kind": "table", "headerless": True, "sidecar": None, "rows": [["red, Blue", "Green, Green"], ["Notatag", "Red"]],
+     "columns": None, "name": "nohdr.tsv", "seed": 9},
     # the gate of _run_checks: a warning in the last cell must not skip the row-level checks
     {"kind": "table", "sidecar": {"cat": {"HED": {"a": "red"}}}, "rows": [["a", "Blue, Blue"]],
      "columns": ["cat", "HED"], "name": "ev.tsv", "seed": 2},
@@ -1339,8 +1391,8 @@ def run(tier, seed, res, model_ok=True, proof_ok=True):
 
 def _run(tier, rng, res, model_ok, proof_ok):
     quick = tier == "quick"
-    n_str = 1500 if quick else 14000
-    n_sc, n_tab = (300, 220) if quick else (5000, 4000)
+    n_str = 1300 if quick else 11000
+    n_sc, n_tab = (260, 180) if quick else (3000, 2500)
     n_sort = 600 if quick else 6000
     n_fmt = 500 if quick else 5000
     n_ctx = 100 if quick else 1000
@@ -1357,7 +1409,8 @@ def _run(tier, rng, res, model_ok, proof_ok):
                           "flavour": "pair"})
     cases += gen_string_cases(rng, n_str)
     cases += gen_file_cases(rng, n_sc, n_tab)
-    cases += gen_dataset_cases(rng, 80 if quick else 1200)
+    cases += gen_dataset_cases(rng, 80 if quick else 800)
+    cases += gen_headerless_cases(rng, 60 if quick else 500)
     cases += gen_sort_cases(rng, n_sort)
     cases += gen_fmt_cases(rng, n_fmt, rows)
     cases += gen_ctx_cases(rng, n_ctx)
